@@ -468,6 +468,13 @@ func (s *Server) attachClient(cl *Client, listener string) error {
 	}
 
 	verifPoint("attach.afterConnack", cl)
+	if lwt, ok := s.loop.willDelayed.Get(cl.ID); ok && pk.Connect.Clean { // the previous session ends here, so its will is due [MQTT-3.1.2-8]
+		s.publishToSubscribers(lwt)
+		if lwt.FixedHeader.Retain {
+			s.retainMessage(cl, lwt)
+		}
+		s.hooks.OnWillSent(cl, lwt)
+	}
 	s.loop.willDelayed.Delete(cl.ID) // [MQTT-3.1.3-9]
 
 	if sessionPresent {
